@@ -86,3 +86,35 @@ func DebugCtx(repo string) {
 		fmt.Println()
 	}
 }
+
+func DebugMiss(repo, name string) {
+	p, _ := Load(Config{Repo: repo})
+	wl := runWalkLayers(p)
+	for _, r := range wl.Runs {
+		if fnName(r.Fn) != name {
+			continue
+		}
+		for i, ps := range passesOf(r) {
+			miss := ""
+			for k, v := range ps.PC {
+				if len(k) > 26 && k[:26] == "has(valid.validName2FnMap[" && v == 0 {
+					miss = k
+				}
+			}
+			if miss == "" {
+				continue
+			}
+			fmt.Printf("pass %d conv=%v events:", i, ps.T.Converged)
+			for _, e := range ps.Events {
+				v, ok := e.PC[miss]
+				fmt.Printf(" %s(%v,%v)", e.Kind, v, ok)
+			}
+			fmt.Println()
+			if len(ps.Events) == 1 {
+				for k, v := range ps.PC {
+					fmt.Printf("     %s=%d\n", shorten(k, 150), v)
+				}
+			}
+		}
+	}
+}
